@@ -426,3 +426,40 @@ def _sel_minmax(ismax):
 
 PRIMS["np.min"] = _sel_minmax(False)
 PRIMS["np.max"] = _sel_minmax(True)
+
+
+# ---- C18: np.min along an axis of a symbolic 2-D array (contract: lower bound of the column, attained) ------------------
+_sel_min, _sel_max = PRIMS["np.min"], PRIMS["np.max"]
+
+
+def _axis_minmax(ismax, selfn):
+    def f(ex, path, x, axis=None, initial=None, keepdims=False, **kw):
+        x = as_tensor(ex, path, x)
+        if getattr(x, "select_of", None) is not None or axis is None:
+            return selfn(ex, path, x, axis=axis, initial=initial, **kw)
+        ax = axis % x.ndim
+        n = toI(x.axes[ax].size)
+        ex.oblige("np.min/np.max along an axis: axis non-empty", path, n >= 1, "precondition")
+        rest = x.axes[:ax] + x.axes[ax + 1:]
+        R = _Fn(f"{'max' if ismax else 'min'}_along!{next(ex.fresh)}", *([IntSort()] * len(rest)), RealSort())
+        W = _Fn(f"arg_along!{next(ex.fresh)}", *([IntSort()] * len(rest)), IntSort())
+        ks = [Int(f"k{q}!ax") for q in range(len(rest))]
+        i = Int("i!ax")
+        full = lambda ii: toR(x.elem(*(ks[:ax] + [ii] + ks[ax:])))
+        rng_ = [And(0 <= k_, k_ < toI(a_.size)) for k_, a_ in zip(ks, rest)]
+        le = (lambda p_, q_: p_ >= q_) if ismax else (lambda p_, q_: p_ <= q_)
+        if ks:
+            path.add(ForAll(ks + [i], Implies(And(*rng_, 0 <= i, i < n), le(R(*ks), full(i))), patterns=[__import__("z3").MultiPattern(R(*ks), full(i))] if False else []))
+            path.add(ForAll(ks, Implies(And(*rng_), And(0 <= W(*ks), W(*ks) < n, R(*ks) == full(W(*ks)))), patterns=[R(*ks)]))
+        else:
+            path.add(ForAll([i], Implies(And(0 <= i, i < n), le(R(), full(i)))))
+            path.add(And(0 <= W(), W() < n, R() == full(W())))
+        t = T(rest, lambda *idx, R=R: R(*[toI(q) for q in idx]), kind="real", prov="fresh") if rest else R()
+        if isinstance(t, T):
+            t.reduce_of = (x, ax, R, W)
+        return t
+    return f
+
+
+PRIMS["np.min"] = _axis_minmax(False, _sel_min)
+PRIMS["np.max"] = _axis_minmax(True, _sel_max)
